@@ -185,6 +185,7 @@ func makeScenario(run *vlib.Run, sd *gen.SchemaDesc, i int, stream string) *scen
 		o = gen.MergeHeavy(o)
 	}
 	o.UnionSecondFragment = true
+	o.UnionSelfFragment = true
 	sc := &scenario{w: w, plan: &plan{res: reactive.NewResource()}}
 	sc.doc = gen.Generate(r, sd, w, o)
 	sc.text, sc.vars = sc.doc.Text(), sc.doc.VarsJSON()
